@@ -536,7 +536,7 @@ class Item:
             raise LostAnchor("rename: identifier `%s` does not occur in the body of %s" % (old, self.path))
         self.log.append({"kind": "rename", "from": old, "to": new, "count": n, "why": why})
 
-    def enum_eq(self, prefix_src, count, why="", call=None):
+    def enum_eq(self, prefix_src, count, why="", call=None, exact_rhs=False):
         """`LHS == Prefix::Variant` / `LHS != Prefix::Variant` (derived PartialEq on a field-less enum) becomes
         `matches!(LHS, Prefix::Variant)` / `!matches!(..)` for every comparison whose right-hand side is a path
         starting with `prefix`.  The variant name is NOT part of the anchor, so changing it stays decidable.
@@ -552,10 +552,13 @@ class Item:
                     and texts(T[i + 1:i + 1 + len(pre)]) == pre
                     and not (T[i - 1].s == "=" and i >= 2 and T[i - 2].s in ("=", "<", ">", "!") and T[i - 1].ws == "")):
                 j = i + 1 + len(pre)
-                if j >= len(T) or not _IDENT.fullmatch(T[j].s):
-                    i -= 1
-                    continue
-                end = j + 1
+                if exact_rhs:
+                    end = j          # the right-hand side is exactly the given token sequence
+                else:
+                    if j >= len(T) or not _IDENT.fullmatch(T[j].s):
+                        i -= 1
+                        continue
+                    end = j + 1
                 op = i - 1          # first char of the operator
                 k = op - 1
                 d = 0
@@ -594,7 +597,7 @@ class Item:
                 n += 1
                 i = start
             i -= 1
-        if n != count:
+        if count >= 0 and n != count:
             raise LostAnchor("enum-eq: %d comparisons against `%s..` in %s, expected %d" % (n, " ".join(pre), self.path, count))
         self.log.append({"kind": "abstract-op", "what": "enum-eq", "prefix": " ".join(pre), "count": n, "via": call or "matches!",
                          "why": why or "derived PartialEq on a field-less enum is variant equality"})
@@ -1228,3 +1231,32 @@ def extract(repo, relpath, path_steps):
     toks = tokenize(src)
     start, o, c = locate(toks, path_steps)
     return Item(relpath, " :: ".join(path_steps), toks, start, o, c)
+
+
+def find_const(repo, relpath, name):
+    """the text of `const NAME: T = EXPR;` (any nesting depth) in a source file, or None; attributes and
+    visibility are not part of it.  Used to follow a reference from extracted text to a module-level constant."""
+    try:
+        toks = tokenize(open("%s/%s" % (repo, relpath), encoding="utf-8").read())
+    except OSError:
+        return None
+    for i in range(len(toks) - 2):
+        if toks[i].s in ("const", "static") and toks[i + 1].s == name and toks[i + 2].s == ":":
+            d = 0
+            j = i
+            while j < len(toks):
+                t = toks[j].s
+                if t in OPEN:
+                    d += 1
+                elif t in CLOSE:
+                    d -= 1
+                elif t == ";" and d == 0:
+                    break
+                j += 1
+            seg = [Tok(t.ws, t.s, t.line) for t in toks[i:j + 1]]
+            seg[0].ws = ""
+            txt = render(seg).strip()
+            if txt.startswith("static"):
+                txt = "const" + txt[len("static"):]
+            return "pub " + txt
+    return None
